@@ -22,9 +22,9 @@ variable {V : Type} [Inhabited V]
 
 /-- A scalar constant (for `nvdim = 1`, or the scalar zero for any `nvdim`) fills every entry
 of an array of shape `(*n, nvdim)`. -/
-theorem asArray_const (isZero : V → Bool) (junk : Option V) (v : V) (m : Mesh) (nv : Nat)
+theorem asArray_const (isZero : V → Bool) (v : V) (m : Mesh) (nv : Nat)
     (h : nv ≤ 1 ∨ isZero v = true) :
-    ∃ a, asArray isZero junk (.leaf (.scalar v)) m nv = .ok a ∧ a.shape = m.n ++ [nv] ∧ ∀ j, a.get j = v := by
+    ∃ a, asArray isZero (.leaf (.scalar v)) m nv = .ok a ∧ a.shape = m.n ++ [nv] ∧ ∀ j, a.get j = v := by
   refine ⟨NDA.const (m.n ++ [nv]) v, ?_, rfl, fun _ => rfl⟩
   simp only [asArray, asLeaf]
   have : ¬ (1 < nv ∧ isZero v = false) := by
@@ -36,15 +36,15 @@ theorem asArray_const (isZero : V → Bool) (junk : Option V) (v : V) (m : Mesh)
 
 /-- A non-zero scalar for a field with more than one component is rejected (wrong component
 count). -/
-theorem asArray_scalar_rejected (isZero : V → Bool) (junk : Option V) (v : V) (m : Mesh) (nv : Nat)
+theorem asArray_scalar_rejected (isZero : V → Bool) (v : V) (m : Mesh) (nv : Nat)
     (h1 : 1 < nv) (h2 : isZero v = false) :
-    asArray isZero junk (.leaf (.scalar v)) m nv = .error .value := by
+    asArray isZero (.leaf (.scalar v)) m nv = .error .value := by
   simp [asArray, asLeaf, h1, h2]
 
 /-- A vector of `nvdim` numbers is stored in every cell, in an array of shape `(*n, nvdim)`. -/
-theorem asArray_vector (isZero : V → Bool) (junk : Option V) (a : NDA V) (m : Mesh) (nv : Nat)
+theorem asArray_vector (isZero : V → Bool) (a : NDA V) (m : Mesh) (nv : Nat)
     (hs : a.shape = [nv]) (hamb : ¬ (nv = 1 ∧ m.n = [1])) :
-    ∃ b, asArray isZero junk (.leaf (.arr a)) m nv = .ok b ∧ b.shape = m.n ++ [nv] ∧
+    ∃ b, asArray isZero (.leaf (.arr a)) m nv = .ok b ∧ b.shape = m.n ++ [nv] ∧
       ∀ i c, i.length = m.n.length → c < nv → b.get (i ++ [c]) = a.get [c] := by
   obtain ⟨b, hb, hshape, hget⟩ := bcast_vec m.n nv a hs
   refine ⟨b, ?_, hshape, hget⟩
@@ -56,9 +56,9 @@ theorem asArray_vector (isZero : V → Bool) (junk : Option V) (a : NDA V) (m : 
   simp [hb]
 
 /-- A per-cell array of shape `(*n, nvdim)` is stored entry by entry. -/
-theorem asArray_array (isZero : V → Bool) (junk : Option V) (a : NDA V) (m : Mesh) (nv : Nat)
+theorem asArray_array (isZero : V → Bool) (a : NDA V) (m : Mesh) (nv : Nat)
     (hs : a.shape = m.n ++ [nv]) :
-    ∃ b, asArray isZero junk (.leaf (.arr a)) m nv = .ok b ∧ b.shape = m.n ++ [nv] ∧
+    ∃ b, asArray isZero (.leaf (.arr a)) m nv = .ok b ∧ b.shape = m.n ++ [nv] ∧
       ∀ j, inRange (m.n ++ [nv]) j = true → b.get j = a.get j := by
   obtain ⟨b, hb, hshape, hget⟩ := bcast_same (m.n ++ [nv]) a hs
   refine ⟨b, ?_, hshape, hget⟩
@@ -70,37 +70,37 @@ theorem asArray_array (isZero : V → Bool) (junk : Option V) (a : NDA V) (m : M
   simp [h1, hs, hb]
 
 /-- For a scalar field an array of shape `n` (no component axis) gives cell `i` the entry `a[i]`. -/
-theorem asArray_array_scalar (isZero : V → Bool) (junk : Option V) (a : NDA V) (m : Mesh) (hs : a.shape = m.n) :
-    ∃ b, asArray isZero junk (.leaf (.arr a)) m 1 = .ok b ∧ b.shape = m.n ++ [1] ∧
+theorem asArray_array_scalar (isZero : V → Bool) (a : NDA V) (m : Mesh) (hs : a.shape = m.n) :
+    ∃ b, asArray isZero (.leaf (.arr a)) m 1 = .ok b ∧ b.shape = m.n ++ [1] ∧
       ∀ i, b.get (i ++ [0]) = a.get i := by
   refine ⟨⟨m.n ++ [1], fun j => a.get j.dropLast⟩, ?_, rfl, fun i => by simp⟩
   simp [asArray, asLeaf, hs]
 
 /-- An array whose last axis is not `nvdim` (and which is not the cell-shaped array of a scalar
 field) is rejected. -/
-theorem asArray_wrong_count_rejected (isZero : V → Bool) (junk : Option V) (a : NDA V) (m : Mesh) (nv : Nat)
+theorem asArray_wrong_count_rejected (isZero : V → Bool) (a : NDA V) (m : Mesh) (nv : Nat)
     (h1 : ¬ (nv = 1 ∧ a.shape = m.n)) (h2 : a.shape.getLast? ≠ some nv) :
-    asArray isZero junk (.leaf (.arr a)) m nv = .error .value := by
+    asArray isZero (.leaf (.arr a)) m nv = .error .value := by
   simp [asArray, asLeaf, h1, h2]
 
 /-- An array that NumPy cannot broadcast to `(*n, nvdim)` is rejected (wrong shape). -/
-theorem asArray_wrong_shape_rejected (isZero : V → Bool) (junk : Option V) (a : NDA V) (m : Mesh) (nv : Nat)
+theorem asArray_wrong_shape_rejected (isZero : V → Bool) (a : NDA V) (m : Mesh) (nv : Nat)
     (h1 : ¬ (nv = 1 ∧ a.shape = m.n)) (h2 : bcastOk (m.n ++ [nv]) a.shape = false) :
-    asArray isZero junk (.leaf (.arr a)) m nv = .error .value := by
+    asArray isZero (.leaf (.arr a)) m nv = .error .value := by
   simp only [asArray, asLeaf, h1, if_false]
   split
   · rfl
   · simp [bcast, h2]
 
 /-- A string, `None`, … is rejected (wrong type). -/
-theorem asArray_wrong_type_rejected (isZero : V → Bool) (junk : Option V) (m : Mesh) (nv : Nat) :
-    asArray isZero junk (.leaf (.bad : Leaf V)) m nv = .error .type := rfl
+theorem asArray_wrong_type_rejected (isZero : V → Bool) (m : Mesh) (nv : Nat) :
+    asArray isZero (.leaf (.bad : Leaf V)) m nv = .error .type := rfl
 
 /-- Refinement of the callable loop: after `for index, point in zip(mesh.indices, mesh)` every
 cell `i` holds the function's value at the centre of cell `i`, in an array of shape `(*n, nvdim)`. -/
-theorem asArray_func (isZero : V → Bool) (junk : Option V) (f : List Rat → List V) (m : Mesh) (nv : Nat)
+theorem asArray_func (isZero : V → Bool) (f : List Rat → List V) (m : Mesh) (nv : Nat)
     (hlen : ∀ i, inRange m.n i = true → (f (m.centre i)).length = nv) :
-    ∃ b, asArray isZero junk (.leaf (.func f)) m nv = .ok b ∧ b.shape = m.n ++ [nv] ∧
+    ∃ b, asArray isZero (.leaf (.func f)) m nv = .ok b ∧ b.shape = m.n ++ [nv] ∧
       ∀ i c, inRange m.n i = true → b.get (i ++ [c]) = (f (m.centre i)).getD c default := by
   have hz : (indicesCode m.n).zip m.iter = (indicesCode m.n).map fun i => (i, m.centre i) := by
     unfold Mesh.iter; exact zip_map_self _ _
@@ -123,9 +123,9 @@ theorem asArray_func (isZero : V → Bool) (junk : Option V) (f : List Rat → L
   simp [this]
 
 /-- A callable that returns the wrong number of components at some cell centre is rejected. -/
-theorem asArray_func_rejected (isZero : V → Bool) (junk : Option V) (f : List Rat → List V) (m : Mesh) (nv : Nat)
+theorem asArray_func_rejected (isZero : V → Bool) (f : List Rat → List V) (m : Mesh) (nv : Nat)
     (i : List Nat) (hi : inRange m.n i = true) (hlen : (f (m.centre i)).length ≠ nv) :
-    asArray isZero junk (.leaf (.func f)) m nv = .error .value := by
+    asArray isZero (.leaf (.func f)) m nv = .error .value := by
   simp only [asArray, asLeaf]
   apply funcLoop_err f nv _ _ (i, m.centre i) _ hlen
   unfold Mesh.iter
@@ -135,11 +135,11 @@ theorem asArray_func_rejected (isZero : V → Bool) (junk : Option V) (f : List 
 /-- A source field on another mesh: target cell `i` receives the value of the source cell whose
 centre is nearest (per axis, ties to the larger index), that source cell exists and CONTAINS the
 centre of cell `i`; the result has shape `(*n, nvdim)`. -/
-theorem asArray_field (isZero : V → Bool) (junk : Option V) (src : VF V) (m : Mesh) (nv : Nat)
+theorem asArray_field (isZero : V → Bool) (src : VF V) (m : Mesh) (nv : Nat)
     (hm : m.Inv) (hs : src.mesh.Inv) (hnd : src.mesh.ndim = m.ndim)
     (hdims : m.region.dims = src.mesh.region.dims) (hnv : src.nvdim = nv)
     (hin : ∀ a, a < m.ndim → src.mesh.region.lo a ≤ m.region.lo a ∧ m.region.hi a ≤ src.mesh.region.hi a) :
-    ∃ b, asArray isZero junk (.leaf (.field src)) m nv = .ok b ∧ b.shape = m.n ++ [nv] ∧
+    ∃ b, asArray isZero (.leaf (.field src)) m nv = .ok b ∧ b.shape = m.n ++ [nv] ∧
       ∀ i c, inRange m.n i = true →
         b.get (i ++ [c]) = src.data.get (nearestIdx src.mesh m i ++ [c]) ∧
         ∀ a, a < m.ndim →
@@ -183,19 +183,19 @@ theorem asArray_field (isZero : V → Bool) (junk : Option V) (src : VF V) (m : 
     exact this
 
 /-- A source field whose region does not contain the target region is rejected. -/
-theorem asArray_field_outside (isZero : V → Bool) (junk : Option V) (src : VF V) (m : Mesh) (nv : Nat)
+theorem asArray_field_outside (isZero : V → Bool) (src : VF V) (m : Mesh) (nv : Nat)
     (h : src.mesh.region.containsReg m.region = false) :
-    asArray isZero junk (.leaf (.field src)) m nv = .error .value := by
+    asArray isZero (.leaf (.field src)) m nv = .error .value := by
   simp [asArray, asLeaf, h]
 
 /-- The `array` setter converts again what `update_field_values` produced ("re-validates every
 assignment"): on an array of the right shape the second conversion is the identity, so the
 two-pass constructor path stores exactly what the specification gives. -/
-theorem updateValues_eq (isZero : V → Bool) (junk : Option V) (s : Spec V) (m : Mesh) (nv : Nat) (a : NDA V)
-    (h : asArray isZero junk s m nv = .ok a) (hs : a.shape = m.n ++ [nv]) :
-    ∃ b, updateValues isZero junk s m nv = .ok b ∧ b.shape = m.n ++ [nv] ∧
+theorem updateValues_eq (isZero : V → Bool) (s : Spec V) (m : Mesh) (nv : Nat) (a : NDA V)
+    (h : asArray isZero s m nv = .ok a) (hs : a.shape = m.n ++ [nv]) :
+    ∃ b, updateValues isZero s m nv = .ok b ∧ b.shape = m.n ++ [nv] ∧
       ∀ j, inRange (m.n ++ [nv]) j = true → b.get j = a.get j := by
-  obtain ⟨b, hb, hshape, hget⟩ := asArray_array isZero junk a m nv hs
+  obtain ⟨b, hb, hshape, hget⟩ := asArray_array isZero a m nv hs
   refine ⟨b, ?_, hshape, hget⟩
   unfold updateValues
   rw [h]
@@ -203,9 +203,9 @@ theorem updateValues_eq (isZero : V → Bool) (junk : Option V) (s : Spec V) (m 
 
 /-- …and a value the first conversion let through with the wrong component count (a source field
 with another `nvdim`) is caught by the second one. -/
-theorem updateValues_field_wrong_nvdim_rejected (isZero : V → Bool) (junk : Option V) (src : VF V) (m : Mesh)
+theorem updateValues_field_wrong_nvdim_rejected (isZero : V → Bool) (src : VF V) (m : Mesh)
     (nv : Nat) (h1 : src.nvdim ≠ nv) (h2 : src.nvdim ≠ 1) :
-    ∃ e, updateValues isZero junk (.leaf (.field src)) m nv = .error e := by
+    ∃ e, updateValues isZero (.leaf (.field src)) m nv = .error e := by
   have hbr : ¬ (src.nvdim = 1 ∧ nv ≠ 1) := fun h => h2 h.1
   have hl : (m.n ++ [src.nvdim]).getLast? ≠ some nv := by simp [h1]
   have hne : ¬ (nv = 1 ∧ m.n ++ [src.nvdim] = m.n) := by
@@ -290,9 +290,9 @@ theorem comp_eq (isZero : V → Bool) (f : VF V) (label : String) (g : VF V) (h 
     · cases h
     · rename_i k hk
       obtain ⟨hk1, hk2⟩ := indexOf?_spec vs label k hk
-      obtain ⟨a, ha, has, hag⟩ := asArray_array isZero none
+      obtain ⟨a, ha, has, hag⟩ := asArray_array isZero
         ⟨f.mesh.n ++ [1], fun j => f.data.get (j.dropLast ++ [k])⟩ f.mesh 1 rfl
-      obtain ⟨b, hb, hbs, hbg⟩ := updateValues_eq isZero none _ f.mesh 1 a ha has
+      obtain ⟨b, hb, hbs, hbg⟩ := updateValues_eq isZero _ f.mesh 1 a ha has
       unfold VF.mk? at h
       rw [hb] at h
       injection h with h; subst h
@@ -426,12 +426,12 @@ theorem line_1d_rejected (f : VF V) (p1 p2 : List Rat) (n : Nat) (h : f.mesh.ndi
 
 /-- A rejected assignment — through the `array` setter or `update_field_values` — leaves the
 field exactly as it was; an accepted one changes only the array. -/
-theorem reject_leaves_unchanged (isZero : V → Bool) (junk : Option V) (f : VF V) :
+theorem reject_leaves_unchanged (isZero : V → Bool) (f : VF V) :
     (∀ l e, f.setArray isZero l = .error e → f.after (f.setArray isZero l) = f) ∧
-    (∀ s e, f.update isZero junk s = .error e → f.after (f.update isZero junk s) = f) ∧
+    (∀ s e, f.update isZero s = .error e → f.after (f.update isZero s) = f) ∧
     (∀ l g, f.setArray isZero l = .ok g → f.after (f.setArray isZero l) = g ∧
       g.mesh = f.mesh ∧ g.nvdim = f.nvdim ∧ g.vdims = f.vdims) ∧
-    (∀ s g, f.update isZero junk s = .ok g → f.after (f.update isZero junk s) = g ∧
+    (∀ s g, f.update isZero s = .ok g → f.after (f.update isZero s) = g ∧
       g.mesh = f.mesh ∧ g.nvdim = f.nvdim ∧ g.vdims = f.vdims) := by
   refine ⟨fun l e h => by rw [h]; rfl, fun s e h => by rw [h]; rfl, fun l g h => ?_, fun s g h => ?_⟩
   · refine ⟨by rw [h]; rfl, ?_⟩
@@ -447,15 +447,15 @@ theorem reject_leaves_unchanged (isZero : V → Bool) (junk : Option V) (f : VF 
 
 /-- Every kind of malformed value is rejected by `update_field_values`, so (previous theorem) the
 field keeps its state: wrong type, non-zero scalar for several components, wrong last axis. -/
-theorem update_malformed_rejected (isZero : V → Bool) (junk : Option V) (f : VF V) :
-    (∃ e, f.update isZero junk (.leaf .bad) = .error e) ∧
-    (∀ v, 1 < f.nvdim → isZero v = false → ∃ e, f.update isZero junk (.leaf (.scalar v)) = .error e) ∧
+theorem update_malformed_rejected (isZero : V → Bool) (f : VF V) :
+    (∃ e, f.update isZero (.leaf .bad) = .error e) ∧
+    (∀ v, 1 < f.nvdim → isZero v = false → ∃ e, f.update isZero (.leaf (.scalar v)) = .error e) ∧
     (∀ a : NDA V, ¬ (f.nvdim = 1 ∧ a.shape = f.mesh.n) → a.shape.getLast? ≠ some f.nvdim →
-      ∃ e, f.update isZero junk (.leaf (.arr a)) = .error e) := by
+      ∃ e, f.update isZero (.leaf (.arr a)) = .error e) := by
   refine ⟨⟨.type, by simp [VF.update, updateValues, asArray, asLeaf]⟩, fun v h1 h2 => ⟨.value, ?_⟩,
     fun a h1 h2 => ⟨.value, ?_⟩⟩
-  · simp [VF.update, updateValues, asArray_scalar_rejected isZero junk v f.mesh f.nvdim h1 h2]
-  · simp [VF.update, updateValues, asArray_wrong_count_rejected isZero junk a f.mesh f.nvdim h1 h2]
+  · simp [VF.update, updateValues, asArray_scalar_rejected isZero v f.mesh f.nvdim h1 h2]
+  · simp [VF.update, updateValues, asArray_wrong_count_rejected isZero a f.mesh f.nvdim h1 h2]
 
 /-- † Finding D44: the `array` setter converts only once, and the source-field overload does not
 check the component count, so `field.array = other_field` with another `nvdim` is ACCEPTED and
@@ -488,7 +488,7 @@ still holding the sentinel.  Entry `(i, c)` of the result is: what the FIRST LIS
 that writes the entry writes there (`patchVal`), and otherwise the default's value for the cell. -/
 theorem asArray_dict (isZero : V → Bool) (items : List (String × Leaf V)) (dflt : Option (Dflt V))
     (m : Mesh) (nv : Nat) (a : NDA V) (hlen : m.n.length = m.ndim)
-    (h : asArray isZero none (.dict items dflt) m nv = .ok a)
+    (h : asArray isZero (.dict items dflt) m nv = .ok a)
     (i : List Nat) (hi : inRange m.n i = true) (c : Nat) (hc : c < nv) :
     a.get (i ++ [c]) =
       match m.subs.findSome? (fun p => patchVal isZero items m nv p (i ++ [c])) with
@@ -505,7 +505,7 @@ theorem asArray_dict_first_listed (isZero : V → Bool) (items : List (String ×
     (m : Mesh) (hm : m.Inv) (nv : Nat) (a : NDA V) (k1 k2 : String × Region → Nat → Nat)
     (hal : ∀ p ∈ m.subs, AlignedSub m p.2 (k1 p) (k2 p))
     (hfield : ∀ q ∈ items, ∀ src, q.2 = .field src → src.nvdim = nv)
-    (h : asArray isZero none (.dict items dflt) m nv = .ok a)
+    (h : asArray isZero (.dict items dflt) m nv = .ok a)
     (i : List Nat) (hi : inRange m.n i = true) (c : Nat) (hc : c < nv) :
     a.get (i ++ [c]) =
       match m.subs.find? (hits items m k1 k2 i) with
@@ -527,7 +527,7 @@ theorem dict_cell_const (isZero : V → Bool) (items : List (String × Leaf V)) 
     (k1 k2 : String × Region → Nat → Nat) (i : List Nat) (c : Nat) (p : String × Region) (v : V)
     (hl : lookupLeaf items p.1 = some (.scalar v)) (hv : nv ≤ 1 ∨ isZero v = true) :
     cellOf isZero items m nv k1 k2 i c p = v := by
-  obtain ⟨a, ha, _, hg⟩ := asArray_const isZero none v (subMeshOf m p.2 (k1 p) (k2 p)) nv hv
+  obtain ⟨a, ha, _, hg⟩ := asArray_const isZero v (subMeshOf m p.2 (k1 p) (k2 p)) nv hv
   simp only [asArray] at ha
   simp [cellOf, hl, leafVal, ha, hg]
 
@@ -544,7 +544,7 @@ theorem dict_cell_func (isZero : V → Bool) (items : List (String × Leaf V)) (
   have hil : i.length = m.ndim := (inRange_length _ _ hi).trans hm.2.1
   have hb : inBox (tab m.ndim (k1 p)) (tab m.ndim (k2 p)) (i ++ []) = true := by
     simp only [hits, Bool.and_eq_true] at hit; simpa using hit.2
-  obtain ⟨b, hb1, _, hg⟩ := asArray_func isZero none f (subMeshOf m p.2 (k1 p) (k2 p)) nv hlen
+  obtain ⟨b, hb1, _, hg⟩ := asArray_func isZero f (subMeshOf m p.2 (k1 p) (k2 p)) nv hlen
   simp only [asArray] at hb1
   have hr := subIdx_inRange m (k1 p) (k2 p) i hil [] hb
   simp only [cellOf, hl, leafVal, hb1]
@@ -561,7 +561,7 @@ theorem dict_cell_array (isZero : V → Bool) (items : List (String × Leaf V)) 
   have hil : i.length = m.ndim := (inRange_length _ _ hi).trans hm.2.1
   have hb : inBox (tab m.ndim (k1 p)) (tab m.ndim (k2 p)) (i ++ []) = true := by
     simp only [hits, Bool.and_eq_true] at hit; simpa using hit.2
-  obtain ⟨b, hb1, _, hg⟩ := asArray_array isZero none arr (subMeshOf m p.2 (k1 p) (k2 p)) nv hs
+  obtain ⟨b, hb1, _, hg⟩ := asArray_array isZero arr (subMeshOf m p.2 (k1 p) (k2 p)) nv hs
   simp only [asArray] at hb1
   have hr := subIdx_inRange m (k1 p) (k2 p) i hil [] hb
   simp only [cellOf, hl, leafVal, hb1]
@@ -573,7 +573,7 @@ theorem dict_cell_array (isZero : V → Bool) (items : List (String × Leaf V)) 
 theorem asArray_dict_missing_default (isZero : V → Bool) (items : List (String × Leaf V)) (m : Mesh) (nv : Nat)
     (i : List Nat) (hi : inRange m.n i = true) (c : Nat) (hc : c < nv)
     (hun : (m.subs.findSome? fun p => patchVal isZero items m nv p (i ++ [c])) = none) :
-    ∃ e, asArray isZero none (.dict items none) m nv = .error e :=
+    ∃ e, asArray isZero (.dict items none) m nv = .error e :=
   asArray_dict_nodefault isZero items m nv i hi c hc hun
 
 /-- Well-formed dictionaries are accepted: subregions that are unions of cells, every listed
@@ -587,7 +587,7 @@ theorem asArray_dict_accepts (isZero : V → Bool) (items : List (String × Leaf
       ∃ sub, asLeaf isZero lf (subMeshOf m p.2 (k1 p) (k2 p)) nv = .ok sub ∧
         sub.shape = (subMeshOf m p.2 (k1 p) (k2 p)).n ++ [nv])
     (hd : bcastOk (m.n ++ [nv]) d.shape = true) :
-    ∃ a, asArray isZero none (.dict items (some (.val d))) m nv = .ok a ∧ a.shape = m.n ++ [nv] := by
+    ∃ a, asArray isZero (.dict items (some (.val d))) m nv = .ok a ∧ a.shape = m.n ++ [nv] := by
   have hfill : fillOf (none : Option V) (some (.val d)) m nv =
       .ok (NDA.map some ⟨m.n ++ [nv], fun j => d.get (bcastIdx (m.n ++ [nv]) d.shape j)⟩) := by
     simp [fillOf, bcast, hd]
@@ -640,9 +640,9 @@ theorem line_accepts (f : VF V) (hnd : f.mesh.ndim ≠ 1) (p1 p2 : List Rat) (n 
 /-- A label of the field is accepted by component access. -/
 theorem comp_accepts (isZero : V → Bool) (f : VF V) (label : String) (vs : List String) (k : Nat)
     (hv : f.vdims = some vs) (hk : indexOf? vs label = some k) : ∃ g, f.comp isZero label = .ok g := by
-  obtain ⟨a, ha, has, _⟩ := asArray_array isZero none
+  obtain ⟨a, ha, has, _⟩ := asArray_array isZero
     ⟨f.mesh.n ++ [1], fun j => f.data.get (j.dropLast ++ [k])⟩ f.mesh 1 rfl
-  obtain ⟨b, hb, _, _⟩ := updateValues_eq isZero none _ f.mesh 1 a ha has
+  obtain ⟨b, hb, _, _⟩ := updateValues_eq isZero _ f.mesh 1 a ha has
   exact ⟨⟨f.mesh, 1, b, none⟩, by simp [VF.comp, hv, hk, VF.mk?, hb]⟩
 
 /-! ## non-vacuity: a 2-d mesh, 4 × 2 cells of size 1, two overlapping subregions -/
